@@ -9,7 +9,7 @@ macro_rules! h {
         #[kani::stub(paseto_core::pae::pre_auth_encode, crate::l2::pae_model)]
         #[kani::stub(<*mut u8>::is_null, crate::l2::is_null_mut)]
         #[kani::stub(<*const u8>::is_null, crate::l2::is_null_const)]
-        fn $name() {
+        pub fn $name() {
             setup();
             $body
         }
